@@ -88,11 +88,15 @@ pub fn run(out: &mut Out, seed: u64, tier: &str) {
     let mut n_wide = 0usize;
     let mut n_graze = 0usize;
     let mut worst: f64 = 0.0;
+    // what the changed source lines mention: deviations from straight of that size (and its square root), pair distances of that size
+    let hint_small: Vec<f64> = hints().magnitudes().into_iter().filter(|m| *m >= 1e-7 && *m <= 0.2).collect();
+    let hint_dist: Vec<f64> = hints().magnitudes().into_iter().filter(|m| *m >= 0.6 && *m <= 1e4).collect();
     for (kind, na) in KINDS.iter() {
         for case in 0..per_kind {
             let params = rand_params(kind, &mut rng);
             let mut x = rand_positions(*na, &mut rng);
             // pair terms are also probed at long range (cut-offs and tails live there)
+            if *na == 2 && case % 6 == 4 && !hint_dist.is_empty() { let d = hint_dist[rng.below(hint_dist.len())] * *rng.pick(&[0.999, 1.0, 1.001]); x[1].x = x[0].x + d * 0.6; x[1].y = x[0].y - d * 0.64; x[1].z = x[0].z + d * 0.48; }
             if *na == 2 && case % 6 == 5 { let d = rng.range(8.0, 40.0); x[1].x = x[0].x + d * 0.6; x[1].y = x[0].y - d * 0.64; x[1].z = x[0].z + d * 0.48; }
             // bends, torsions and inversions are also probed with the angle 0-1-2 opened to 172-179 degrees (near-linear
             // guards and the 1/sin factors live there)
@@ -109,7 +113,8 @@ pub fn run(out: &mut Out, seed: u64, tier: &str) {
                 let vp = [v[0] - dot(v, u) * u[0], v[1] - dot(v, u) * u[1], v[2] - dot(v, u) * u[2]];
                 let lw = dot(vp, vp).sqrt();
                 if lw > 1e-3 {
-                    let d = if grazing { graze_delta = 10f64.powf(rng.range(-6.5, -3.0)); graze_delta } else { (180.0 - rng.range(172.0, 179.0)).to_radians() };
+                    let d = if grazing && !hint_small.is_empty() && case % 16 == 5 { graze_delta = hint_small[rng.below(hint_small.len())] * *rng.pick(&[0.5, 0.99, 1.01, 2.0]); graze_delta }
+                            else if grazing { graze_delta = 10f64.powf(rng.range(-6.5, -3.0)); graze_delta } else { (180.0 - rng.range(172.0, 179.0)).to_radians() };
                     x[0].x = x[1].x + r * (-d.cos() * u[0] + d.sin() * vp[0] / lw);
                     x[0].y = x[1].y + r * (-d.cos() * u[1] + d.sin() * vp[1] / lw);
                     x[0].z = x[1].z + r * (-d.cos() * u[2] + d.sin() * vp[2] / lw);
